@@ -14,6 +14,7 @@ import (
 	"sync"
 	"time"
 
+	"github.com/33cn/chain33/common/address"
 	"github.com/33cn/chain33/types"
 	"github.com/33cn/chain33/util"
 	"verifharness/chainenv"
@@ -127,6 +128,7 @@ func (e *endpoint) ServeHTTP(w http.ResponseWriter, r *http.Request) {
 type histReq struct {
 	Seed    uint64 `json:"seed"`
 	Restart bool   `json:"restart"`
+	Big     bool   `json:"big"`
 }
 
 type subRes struct {
@@ -240,6 +242,27 @@ func runHistory(q histReq) ([]subRes, error) {
 			ep.chain = func(name string) int64 { v, _ := n.Chain.ProcGetLastPushSeq(name); return v }
 		}
 	}
+	if q.Big {
+		// large blocks while every subscriber is made to lag (its next two posts fail): the following batches span several
+		// sequences and reach the push size cap (1 MB), so a batch is cut short and must be continued without a gap
+		ep.mu.Lock()
+		for _, s := range ep.subs {
+			s.script = append(s.script[:s.pos:s.pos], false, false)
+		}
+		ep.mu.Unlock()
+		for k := 0; k < 14; k++ {
+			var txs []*types.Transaction
+			for j := 0; j < 2; j++ {
+				tx := &types.Transaction{Execer: []byte("none"), Payload: r.Bytes(90000), Nonce: int64(r.U64() >> 2), To: address.ExecAddress("none"), ChainID: n.Cfg.GetChainID()}
+				tx.SetRealFee(n.Cfg.GetMinTxFeeRate())
+				tx.Sign(types.SECP256K1, node.GenesisKey())
+				txs = append(txs, tx)
+			}
+			if d, err := n.Build(n.LastBlock(), txs, 0x1f00ffff, 0); err == nil {
+				n.Deliver(d.Block, true, "p")
+			}
+		}
+	}
 	// failures have stopped once scripts are exhausted: re-register everybody and wait (bounded) for catch-up
 	last, _ := n.Chain.GetStore().LoadBlockLastSequence()
 	deadline := time.Now().Add(150 * time.Second)
@@ -318,7 +341,7 @@ func c32Timeout() time.Duration {
 func run(c *lib.Ctx) {
 	c.Rule("a real node grows and reorganises along a generated block tree while 2-4 push subscribers (block and header type, with and without an explicit resume point) are served by a loopback HTTP endpoint that follows a generated acknowledge/fail script " +
 		"(runs of 1-3 failures; 3 consecutive failures deactivate the subscriber, which then registers again); the endpoint itself is the online monitor: every post must start at last-acknowledged+1 (or at the requested resume point+1), be internally consecutive, " +
-		"and the node's recorded last-pushed sequence (ProcGetLastPushSeq, read at every post) must never be ahead of what was acknowledged; half of the histories restart the node mid-way. " +
+		"and the node's recorded last-pushed sequence (ProcGetLastPushSeq, read at every post) must never be ahead of what was acknowledged; half of the histories restart the node mid-way; two thirds add 14 blocks of ~180 KB while the subscribers lag, so that batches hit the 1 MB push size cap and are cut short. " +
 		"Bounded progress after failures stop is measured, not decided (stalls are reported as inconclusive). non-trivial = subscriber that saw >=1 failed post and >=2 acknowledged posts; distinct = (history, subscriber)")
 	c.Assume("retry tick shortened from 60 to 1 one-second ticks through a build-tagged setter; retry logic unchanged", "tx-receipt and EVM-event subscriptions (which legitimately skip sequences without matching transactions) are not exercised")
 	n := c.N(6, 120)
@@ -327,7 +350,7 @@ func run(c *lib.Ctx) {
 			return
 		}
 		seed := c.CaseRng("hist", i).U64()
-		cr := c.Child("hist", histReq{Seed: seed, Restart: i%2 == 1}, lib.ChildOpts{Timeout: c32Timeout()})
+		cr := c.Child("hist", histReq{Seed: seed, Restart: i%2 == 1, Big: i%3 != 2}, lib.ChildOpts{Timeout: c32Timeout()})
 		if cr.TimedOut {
 			if d := os.Getenv("VERIF_DEBUG_DIR"); d != "" {
 				os.WriteFile(filepath.Join(d, fmt.Sprintf("c32-watchdog-%d.txt", i)), []byte(cr.Stderr), 0o644)
